@@ -5,7 +5,7 @@
 (*   [ev |-> "reset", case |-> n]                                          *)
 (*   [ev |-> "edit",  case |-> n, op |-> STRING, ret |-> STRING]           *)
 (*   [ev |-> "skip",  case |-> n, target |-> STRING, why |-> STRING]       *)
-(*   [ev |-> "save",  case |-> n, via, target, k, ret, tb, complete,       *)
+(*   [ev |-> "save",  case |-> n, via, target, k, ret, tb, tbwhen, complete,*)
 (*                    before, disk, size, n0, dirstart, cmax]              *)
 (* One "save" line is one call of a save entry point (see SaveIO.tla for    *)
 (* the fields).  The judge never blocks: every call is judged on its own.   *)
